@@ -20,7 +20,7 @@ pub fn rule_sets() -> Vec<(&'static str, Vec<(&'static str, &'static str, &'stat
     vec![
         ("b-comm", vec![("b-comm", "(b ?x ?y)", "(b ?y ?x)")]),
         ("u-elim", vec![("u-elim", "(u ?x)", "?x")]),
-        ("f-comm+u-intro", vec![("f-comm", "(f $a $b)", "(f $b $a)"), ("h-u", "(h $a)", "(u (h $a))")]),
+        ("f-comm+u-intro", vec![("f-comm", "(f $a $b)", "(f $b $a)"), ("h-u", "(h $a)", "(u (h $a))"), ("h-mix", "(b (h $a) ?x)", "(b ?x (h $a))")]),
         // patterns that repeat a slot: must only match nodes that repeat it too
         ("repeated-slot", vec![("t-repeat", "(t $a $b $a)", "(f $a $b)"), ("b-shared", "(b (f $a $b) (h $a))", "(g $a $b)")]),
     ]
